@@ -65,12 +65,13 @@ def flip_case_expectation(rows, k=3):
     return out
 
 
-def record_and_validate(chk, driver, trace_module, trace_cfg, n_events, n_traces, key, canary=None, timeout=900, silent=False):
+def record_and_validate(chk, driver, trace_module, trace_cfg, n_events, n_traces, key, canary=None, timeout=900, silent=False,
+                        tag=""):
     wd = vlib.workdir(chk.prop)
     first = None
     for t in range(n_traces):
         seed = chk.seed * 1000 + t
-        p = os.path.join(wd, "%s.%d.ndjson" % (driver, t))
+        p = os.path.join(wd, "%s%s.%d.ndjson" % (driver, tag, t))
         vlib.vh_record(driver, seed, n_events, p)
         v = chk.validate(trace_module, trace_cfg, p, key, timeout=timeout, silent=silent)
         if not v["accepted"]:
@@ -88,6 +89,10 @@ def replay_file(prop, path):
         rp = json.load(f)
     d = rp["detail"]
     wd = vlib.workdir(prop)
+    if d.get("backend") == "stronghold" and vlib.VH != vlib.VH_SH:
+        vlib.build_harness_sh()
+        with vlib.stronghold_backend(prop):
+            return replay_file(prop, path)
     if d.get("kind") == "trace-rejected":
         r = d.get("reproduce")
         if not r:
@@ -596,8 +601,36 @@ def c15(chk):
     rounds, n_tr = q(chk, (150, 1), (2500, 8))
     record_and_validate(chk, "C15.race", "KeyIdStoreTrace", "KeyIdStoreTrace.cfg", rounds, n_tr, "key_id_store/race",
                         canary=corrupt_race_trace, silent=True, timeout=3000)
-    chk.assumptions += ["Ed25519/SHA-256 primitives trusted; Stronghold store not exercised (build too heavy for this sandbox run)",
+    chk.assumptions += ["Ed25519/SHA-256 primitives trusted",
                         "real-thread races sample schedules; exhaustive interleaving holds for the TLA+ design model only"]
+    if chk.tier == "thorough":
+        stronghold_stage(chk, r["cases_file"])
+    else:
+        chk.assumptions.append("StrongholdStorage is exercised by the thorough tier only (second harness binary, ~3 min build)")
+
+
+def stronghold_stage(chk, cases_file):
+    """The same specification, the same drivers, the other shipped store: StrongholdStorage as key store AND key-id store."""
+    dt = vlib.build_harness_sh()
+    log("[%s] stronghold harness built in %.1fs" % (chk.prop, dt))
+    before = len(chk.violations)
+    with vlib.stronghold_backend(chk.prop):
+        # every k-th transition (a fresh snapshot-backed stronghold per case costs ~80 ms); VERIF_SEED shifts the sample
+        rows = vlib.read_ndjson(cases_file)
+        k = max(1, len(rows) // 4000)
+        sample = rows[(chk.seed % k)::k]
+        p = cases_file.replace(".cases.ndjson", ".stronghold.cases.ndjson")
+        vlib.write_ndjson(p, sample)
+        chk.replay(p, tag=".stronghold", timeout=3000, vacuity=False)
+        chk.canary_cases(p, flip_case_expectation)
+        record_and_validate(chk, "C15.seq", "KeyStoreTrace", "KeyStoreTrace.cfg", 1500, 2, "key_store/trace",
+                            canary=flip_ok_in_trace, tag=".stronghold")
+        record_and_validate(chk, "C15.race", "KeyIdStoreTrace", "KeyIdStoreTrace.cfg", 300, 2, "key_id_store/race",
+                            canary=corrupt_race_trace, silent=True, timeout=3000, tag=".stronghold")
+    for v in chk.violations[before:]:
+        v["key"] = "stronghold/" + v["key"]
+        v["detail"]["backend"] = "stronghold"
+    chk.extra["stronghold"] = dict(cases_replayed=len(sample), of=len(rows))
 
 
 # ------------------------------------------------------------------------------------------------
